@@ -471,6 +471,7 @@ func (a *Activation) copyBytes(st *State, x Term, toString bool) Term {
 	g := a.g
 	arr := g.newObject(st, "bytescopy")
 	n := sLen(x)
+	a.allocCheck(st, n, token.NoPos)
 	res := mkSlice(arr, bv64(0), n, n)
 	a.memcpy(st, bvSort(8), arr, bv64(0), sArr(x), sOff(x), n)
 	return ite(eq(n, bv64(0)), nilSliceOrEmpty(toString, arr), res)
